@@ -1,5 +1,5 @@
 From Coq Require Import List String.
-From Verif Require Import Base Dispatch DispatchPoly.
+From Verif Require Import Base Dispatch DispatchPoly DispatchTorch.
 Import ListNotations.
 Open Scope string_scope.
 
@@ -11,7 +11,11 @@ Definition handle (s : sexp) : string :=
       | None =>
       match handle_poly cmd args with
       | Some r => r
+      | None =>
+      match handle_torch cmd args with
+      | Some r => r
       | None => "!unknown-or-malformed " ++ cmd
+      end
       end
       end
   | _ => "!malformed"
